@@ -276,6 +276,7 @@ func (req *SrvReq) Process() {
 			req.RespondError(Eunknownfid)
 			return
 		}
+		verifPoint("process.fid", req)
 	} else {
 		switch tc.Type {
 		case Twalk, Topen, Tcreate, Tread, Twrite, Tclunk, Tremove, Tstat, Twstat:
